@@ -801,8 +801,8 @@ structure Specs (toks : Toks) (fuel : Nat) : Prop where
     wp (parseForIn toks false fuel) (fun _ s' => Sf toks s s') s
   retE : ∀ s, s.idx ≤ toks.length → tokIs toks s.idx "return" = true →
     wp (parseReturn toks false fuel) (fun _ s' => Sf toks s s') s
-  structLit : ∀ s, s.idx + 2 ≤ toks.length → tokIs toks s.idx "}" = false →
-    wp (parseStructLiteral toks false fuel) (fun _ s' => Sf toks s s') s
+  structLit : ∀ s, s.idx + 2 ≤ toks.length →
+    wp (parseStructLiteral toks false fuel) (fun r s' => Ex toks s r s') s
   fieldsL : ∀ acc s, s.idx ≤ toks.length → wp (fieldsLoop toks false fuel acc)
     (fun _ s' => Mv toks s.idx s'.idx ∧ (s.idx + 2 ≤ toks.length → tokIs toks s.idx "}" = false → s.idx < s'.idx)) s
   matchE : ∀ s, s.idx ≤ toks.length → tokIs toks s.idx "match" = true →
@@ -1547,9 +1547,7 @@ theorem step_simple : ∀ s, s.idx ≤ toks.length →
           cases h1 : toks[s.idx + 1]? with
           | none => simp [h1] at c
           | some t1 => have := get_lt h1; omega
-        have hrb : tokIs toks s.idx "}" = false := by
-          simp only [tokIs, h0]; exact sym_ne_rbrace toks hne hl fuel ih hsym
-        exact wp_mono (ih.structLit s h2 hrb) (fun _ _ m => sf m)
+        exact ih.structLit s h2
       · unfold parseVariable
         wpsimp'
         refine wp_mono (spec_parseSymbol toks hne hl false s hs) ?_
@@ -1753,31 +1751,29 @@ theorem step_fieldsL : ∀ acc s, s.idx ≤ toks.length → wp (fieldsLoop toks 
     have b2 := rt_le m2.2
     exact afterColon s2 b2.1 m2.1
 
-theorem step_structLit : ∀ s, s.idx + 2 ≤ toks.length → tokIs toks s.idx "}" = false →
-    wp (parseStructLiteral toks false (fuel + 1)) (fun _ s' => Sf toks s s') s := by
-  intro s hs hb
+theorem step_structLit : ∀ s, s.idx + 2 ≤ toks.length →
+    wp (parseStructLiteral toks false (fuel + 1)) (fun r s' => Ex toks s r s') s := by
+  intro s hs
   rw [parseStructLiteral]
   wpsimp'
   refine wp_mono (spec_parseSymbol toks hne hl false s (by omega)) ?_
   intro name s1 m1
   have b1 := m1.2 (by omega)
+  refine ite_intro (fun _ => ⟨b1.1, m1.1.1, fun h => by simp [Expr.isInvalidOrPlaceholder] at h⟩) fun c => ?_
+  have n1 : s1.idx ≠ s.idx := by simpa using c
   refine wp_mono (spec_requireToken toks hne "{" s1 m1.1.1) ?_
   intro _ s2 m2
   have b2 := rt_le m2.2
   refine wp_mono (ih.fieldsL [] s2 m2.1) ?_
   intro fs s3 m3
   have h3 : s.idx < s3.idx := by
-    by_cases h : s2.idx = s.idx
-    · have hs2 : s2 = ⟨s.idx, s2.diags⟩ := by cases s2; simp_all
-      have := m3.2 (by omega) (by rw [h]; exact hb)
-      omega
-    · have := m3.1
-      simp only [Mv] at this
-      omega
+    have := m3.1
+    simp only [Mv] at this
+    omega
   refine wp_mono (spec_requireToken toks hne "}" s3 m3.1.1) ?_
   intro _ s4 m4
   have b4 := rt_le m4.2
-  exact ⟨by omega, m4.1⟩
+  exact ⟨by omega, m4.1, fun _ => by omega⟩
 
 end level2
 section final
